@@ -17,12 +17,14 @@ var verifAncestors = map[string][]string{
 	"FHIR.string": {"FHIR.string", "FHIR.Element"}, "FHIR.code": {"FHIR.code", "FHIR.string", "FHIR.Element"},
 	"FHIR.positiveInt": {"FHIR.positiveInt", "FHIR.integer", "FHIR.Element"}, "FHIR.canonical": {"FHIR.canonical", "FHIR.uri", "FHIR.Element"},
 	"FHIR.Patient": {"FHIR.Patient", "FHIR.DomainResource", "FHIR.Resource"},
+	"FHIR.Reference": {"FHIR.Reference", "FHIR.Element"}, "FHIR.Extension": {"FHIR.Extension", "FHIR.Element"},
 	"FHIR.HumanName": {"FHIR.HumanName", "FHIR.Element"}, "FHIR.boolean": {"FHIR.boolean", "FHIR.Element"},
 }
 
 var verifIsTargets = [][2]string{{"System", "Integer"}, {"System", "String"}, {"System", "Boolean"}, {"System", "Any"},
 	{"FHIR", "string"}, {"FHIR", "code"}, {"FHIR", "integer"}, {"FHIR", "positiveInt"}, {"FHIR", "uri"}, {"FHIR", "canonical"},
-	{"FHIR", "boolean"}, {"FHIR", "Element"}, {"FHIR", "HumanName"}, {"FHIR", "Patient"}, {"FHIR", "Resource"}, {"FHIR", "DomainResource"}, {"FHIR", "BackboneElement"}}
+	{"FHIR", "boolean"}, {"FHIR", "Element"}, {"FHIR", "HumanName"}, {"FHIR", "Patient"}, {"FHIR", "Resource"}, {"FHIR", "DomainResource"}, {"FHIR", "BackboneElement"},
+	{"FHIR", "Reference"}, {"FHIR", "Extension"}}
 
 // C12: `x is T` is true exactly when x's declared type is T or derives from T; `x as T` is x itself when
 // `x is T` and empty otherwise; the singleton rule applies.
@@ -30,13 +32,29 @@ func VerifHarness_C12_IsAs() {
 	var x any
 	var decl string
 	var unwrapped any // what `as` yields, when that is not x itself
-	switch verifrt.Choose("kind", 11) {
+	switch verifrt.Choose("kind", 13) {
 	case 9:
 		x, decl = &ppb.Patient{Id: &dtpb.Id{Value: "p"}}, "FHIR.Patient"
 	case 10:
 		// a resource in the wrapper it has as a bundle entry or contained resource is that resource
 		p := &ppb.Patient{Id: &dtpb.Id{Value: "p"}}
 		x, decl, unwrapped = &bcrpb.ContainedResource{OneofResource: &bcrpb.ContainedResource_Patient{Patient: p}}, "FHIR.Patient", p
+	case 11:
+		// a data type that keeps one of its own elements in a oneof is not a wrapper of that element: a Reference
+		// with a literal reference (uri, fragment or typed id) is a Reference
+		r := &dtpb.Reference{Display: &dtpb.String{Value: "d"}}
+		switch verifrt.Choose("reference", 4) {
+		case 0:
+			r.Reference = &dtpb.Reference_Uri{Uri: &dtpb.String{Value: "http://h/Patient/1"}}
+		case 1:
+			r.Reference = &dtpb.Reference_Fragment{Fragment: &dtpb.String{Value: "c1"}}
+		case 2:
+			r.Reference = &dtpb.Reference_PatientId{PatientId: &dtpb.ReferenceId{Value: "1"}}
+		}
+		x, decl = r, "FHIR.Reference"
+	case 12:
+		// likewise an Extension whose value[x] is set is an Extension (its value is reached by .value)
+		x, decl = &dtpb.Extension{Url: &dtpb.Uri{Value: "u"}, Value: &dtpb.Extension_ValueX{Choice: &dtpb.Extension_ValueX_StringValue{StringValue: &dtpb.String{Value: "v"}}}}, "FHIR.Extension"
 	case 0:
 		x, decl = system.Integer(verifrt.NondetInt32("i")), "System.Integer"
 	case 1:
